@@ -230,6 +230,8 @@ pub struct Gen {
     pub typed_ids: Vec<u32>,
     /// allow embedded opcodes with optional / variadic operands
     pub max_rep: usize,
+    /// occasionally very long strings (instructions above 1023 words)
+    pub long_strings: bool,
 }
 
 impl Gen {
@@ -243,6 +245,7 @@ impl Gen {
             force: vec![],
             typed_ids: vec![],
             max_rep: 6,
+            long_strings: false,
         }
     }
     pub fn fresh(&mut self) -> u32 {
@@ -338,7 +341,12 @@ impl Gen {
                 ws.push(v);
             }
             K::LiteralString => {
-                let s = cs.string();
+                let s = if self.long_strings && cs.below(4) == 0 {
+                    let n = 4000 + cs.below(3000);
+                    cs.ascii_exact(n)
+                } else {
+                    cs.string()
+                };
                 sh.strings.push(s.len());
                 ws.extend(str_words(&s));
                 ops.push(Operand::LiteralString(s));
